@@ -333,6 +333,9 @@ MUTATORS = {'append', 'extend', 'insert', 'add', 'add_new', 'pop', 'remove', 'cl
 MUTATOR_FUNCS = {'setattr', 'delattr', 'np.copyto', 'np.put', 'np.place', 'np.putmask'}
 KEEPING_FUNCS = {'list', 'tuple', 'set', 'dict', 'frozenset', 'cls', 'sorted'}     # results hold references to their arguments
 MAX_CONDS = 11
+# converters that cannot re-class their argument and return a new container holding its items (validated by tie C:
+# the correspondence compares 'same object / new object' of every converter with what its program predicts)
+REBUILDERS = {'ContentSequence.from_sequence'}
 
 FRESH = ('fresh',)
 
@@ -475,6 +478,17 @@ class _Alias:
                     pe, _ = self.expr(extra)
                     pa += pe
                 ck = [k.value for k in node.keywords if k.arg == 'copy']
+                if ast.unparse(node.func) in REBUILDERS:
+                    # builds a new container around the items of its argument; the items are converted in place unless copied
+                    t = self.tmp()
+                    inplace = [('deep', a), ('assign', t, FRESH), ('link', ('var', t), a)]
+                    if not ck or (isinstance(ck[0], ast.Constant) and ck[0].value is True):
+                        return pa, FRESH
+                    if isinstance(ck[0], ast.Constant) and ck[0].value is False:
+                        return pa + inplace, ('var', t)
+                    if isinstance(ck[0], ast.Name) and ck[0].id == 'copy' and self.has_copy:
+                        return pa + [('ite', 0, [('assign', t, FRESH)], inplace)], ('var', t)
+                    raise Unsupported(f'{self.fn.name}: converter call with copy={ast.unparse(ck[0])}')
                 if kind == 'private' and not ck:
                     return pa + [('deep', a)], a           # in-place helper: converts and returns its argument
                 if not ck or (isinstance(ck[0], ast.Constant) and ck[0].value is True):
